@@ -1,9 +1,88 @@
 import Drivers.Proto
-/-! Model driver for property C01 (stub: no model operations registered yet). -/
-open Lean Proto
+import St4sd.Model.Ctrl
+/-! Model driver for properties C01 and C02 (shared model `St4sd.Ctrl`).
+
+request : {"comps":[{stage,preds,isRepeat,isAgg,isRepl,shutdownOn,restartOn,maxRestarts,script}],
+           "order":[..], "lastStage":k, "ops":[["sched"]|["exit",c]|["fin",c]|["pm",c]|["kill"]|["tick",c]]}
+answer  : {"snaps":[state after every op], "stageDone", "quiescent", "verdict", "log", "spec", "own"} -/
+open Lean Proto St4sd.Ctrl
+
+def reasonOf : String → Except String Reason
+  | "Success" => pure .success | "KnownIssue" => pure .knownIssue | "SystemIssue" => pure .systemIssue
+  | "SubmissionFailed" => pure .submissionFailed | "UnknownIssue" => pure .unknownIssue
+  | "Killed" => pure .killed | "Cancelled" => pure .cancelled | "ResourceExhausted" => pure .resourceExhausted
+  | s => throw s!"unknown exit reason {s}"
+
+def fin3Name : Fin3 → String
+  | .finished => "finished" | .failed => "failed" | .shutdown => "shutdown"
+
+def stateName (cs : CompS) : String :=
+  match cstate cs with
+  | .final f => fin3Name f
+  | .postmortem => "postmortem"
+  | .running => "running"
+
+def parseComp (j : Json) : Except String CompDef := do
+  let so ← (← getStrList j "shutdownOn").mapM reasonOf
+  let ro ← (← getStrList j "restartOn").mapM reasonOf
+  let sc ← (← getStrList j "script").mapM reasonOf
+  return { stage := ← getNat j "stage", preds := ← getNatList j "preds", isRepeat := ← getBool j "isRepeat",
+           isAgg := ← getBool j "isAgg", isRepl := ← getBool j "isRepl", shutdownOn := so, restartOn := ro,
+           maxRestarts := ← getNat j "maxRestarts", script := sc }
+
+def parseOp (j : Json) : Except String Op := do
+  let a ← j.getArr?
+  let k ← (a[0]!).getStr?
+  let arg : Except String Nat := do (← (a[1]? |>.elim (throw "missing operand") pure)).getNat?
+  match k with
+  | "sched" => pure .sched
+  | "kill" => pure .kill
+  | "exit" => return .exit (← arg)
+  | "fin" => return .fin (← arg)
+  | "pm" => return .pm (← arg)
+  | "tick" => return .tick (← arg)
+  | _ => throw s!"unknown op {k}"
+
+def notifJson : Notif → Json
+  | .fin c => jarr [jstr "fin", jnat c]
+  | .pm c => jarr [jstr "pm", jnat c]
+
+def notifKey : Notif → Nat
+  | .fin c => 2 * c
+  | .pm c => 2 * c + 1
+
+/-- insertion sort on the key: `fin` sorts before `pm`, then by component (= Python's sorted()) -/
+def sortNotifs (l : List Notif) : List Notif :=
+  let key (n : Notif) : Nat × Nat := match n with | .fin c => (0, c) | .pm c => (1, c)
+  let le (a b : Notif) : Bool := (key a).1 < (key b).1 || ((key a).1 == (key b).1 && (key a).2 ≤ (key b).2)
+  l.foldl (fun acc x => (acc.takeWhile (fun y => le y x)) ++ [x] ++ (acc.dropWhile (fun y => le y x))) []
+
+def snap (wf : Wf) (s : St) : Json :=
+  jobj [("comps", jarr ((comps wf).map fun c =>
+            let cs := s.comp c
+            jarr [jstr (stateName cs), jbool (s.done c), jbool cs.staged, jnat cs.launches, jbool cs.finishCalled])),
+        ("stop", jbool s.stop),
+        ("pending", jarr ((sortNotifs s.pending).map notifJson))]
 
 def handle (j : Json) : Except String Json := do
-  let op ← getStr j "op"
-  throw s!"unknown op {op}"
+  let cds ← (← getArr j "comps").mapM parseComp
+  let order ← getNatList j "order"
+  let lastStage ← getNat j "lastStage"
+  let ops ← (← getArr j "ops").mapM parseOp
+  let wf : Wf := { n := cds.length, cdef := fun i => cds.getD i {}, order := order, lastStage := lastStage }
+  let (sfin, snapsRev) := ops.foldl (fun (acc : St × List Json) op =>
+      let s' := step wf acc.1 op
+      (s', snap wf s' :: acc.2)) (init, [])
+  let viewJson (pv : Nat × View) : Json :=
+    jarr [jnat pv.1, jopt (fun f => jstr (fin3Name f)) pv.2.state, jbool pv.2.staged]
+  return jobj [("snaps", jarr snapsRev.reverse),
+               ("stageDone", jbool (stageDone wf sfin)),
+               ("quiescent", jbool (quiescent wf sfin)),
+               ("verdict", jstr (match verdict wf sfin with
+                                 | .ok => "ok" | .jobFailure => "UnexpectedJobFailureError"
+                                 | .noFinishedLeaf => "FinalStageNoFinishedLeafComponents")),
+               ("log", jarr (sfin.log.map fun e => jarr [jnat e.1, jarr (e.2.map viewJson)])),
+               ("spec", jarr ((comps wf).map fun c => jstr (fin3Name (spec wf c)))),
+               ("own", jarr ((comps wf).map fun c => jstr (fin3Name (own wf c))))]
 
 def main : IO Unit := serve handle
